@@ -350,3 +350,77 @@ def gen_typed_case(rng):
         else:
             msg.append([rng.choice((1, 8, 13, 65535, 65536)), [[7, rng.randrange(256), [rng.randrange(256) for _ in range(rng.randrange(6))]] for _ in range(rng.randrange(3))] + ([[4, 1]] if rng.random() < 0.1 else [])])
     return {'k': 9, 'w': 1, 'msg': msg}
+
+
+# ---------------------------------------------------------------- rendering for the Coq model
+from vp.val import cN, cZ, cbool, clist
+
+
+def rlist(l, render):
+    if is_rep(l): return '(N.iter %d%%N (cons %s) [])' % (l[2], render(l[1]))
+    return clist([render(y) for y in l])
+
+
+def _bytes(l): return rlist(l, cN)
+
+
+def psid_to_coq(msg):
+    def st_(q): return 'APsStMissing' if q[0] == 0 else '(APsSt %s)' % ' '.join(cN(v) for v in q[1:])
+    def info_(s):
+        if s[0] == 0: return 'APsInfoMissing'
+        return '(APsInfo %s %s %s)' % (_bytes(s[1]), cN(s[2]), rlist(s[3], lambda e: '(%s, %s)' % (cN(e[0]), rlist(e[1], st_))))
+    def tlv_(t):
+        if t[0] == 0: return 'APsMissing'
+        return '(APsSvc %s %s)' % (cbool(t[0] == 4), rlist(t[1], lambda e: '(%s, %s)' % (cN(e[0]), rlist(e[1], info_))))
+    return 'run_api_psid_case %s' % rlist(msg, tlv_)
+
+
+def _ebs(e): return 'None' if not e else '(Some (AEbs %s %s %s %s %s))' % (cZ(e[0]), cN(e[1]), cN(e[2]), cN(e[3]), cN(e[4]))
+def _fl(f): return 'None' if not f else '(Some (%s, %s, %s, %s))' % tuple(cbool(bool(b)) for b in f)
+def _w(w): return 'None' if not w else '(Some (%s, %s))' % (cN(w[0]), cN(w[1]))
+
+
+def te_to_coq(msg):
+    def seg_(g):
+        if g[0] == 0: return 'ASegMissing'
+        if g[0] == 1: return '(ASegA %s %s)' % (_fl(g[1]), cN(g[2]))
+        return '(ASegB %s %s %s)' % (_fl(g[1]), _bytes(g[2]), _ebs(g[3]))
+    def sub_(s):
+        k = s[0]
+        if k == 0: return 'ATsMissing'
+        if k == 1: return '(ATsPref %s %s)' % (cN(s[1]), cN(s[2]))
+        if k == 2:
+            if s[1] == 0: return 'ATsBsidNone'
+            if s[1] == 1: return '(ATsBsidMpls %s %s %s)' % (cbool(bool(s[2])), cbool(bool(s[3])), _bytes(s[4]))
+            return '(ATsBsid6 %s %s %s %s %s)' % (cbool(bool(s[2])), cbool(bool(s[3])), cbool(bool(s[4])), _bytes(s[5]), _ebs(s[6]))
+        if k == 3: return '(ATsEnlp %s %s)' % (cN(s[1]), cZ(s[2]))
+        if k == 4: return '(ATsPrio %s)' % cN(s[1])
+        if k == 5: return '(ATsName %s)' % _bytes(s[1])
+        if k == 6: return '(ATsSegList %s %s)' % (_w(s[1]), rlist(s[2], seg_))
+        if k == 7: return '(ATsUnknown %s %s)' % (cN(s[1]), _bytes(s[2]))
+        return 'ATsOther'
+    return 'run_api_te_case %s' % rlist(msg, lambda t: '(%s, %s)' % (cN(t[0]), rlist(t[1], sub_)))
+
+
+def typed_to_coq(c): return psid_to_coq(c['msg']) if c['w'] == 0 else te_to_coq(c['msg'])
+
+
+def ps_single_keys(msg):
+    """every map of the message has at most one key (the iteration order of a larger map is not fixed)"""
+    for t in expand(msg):
+        if t[0] == 0: continue
+        if len(t[1]) > 1: return False
+        for _k, subs in t[1]:
+            for s in subs:
+                if s[0] and len(s[3]) > 1: return False
+    return True
+
+
+def typed_canon(c, obs):
+    """what is compared with the model: accepted, value octets, listing (PrefixSid maps of several keys: accepted only)"""
+    if obs == [-1] or not obs: return obs
+    if obs[0] == 0: return [0]
+    if c['w'] == 0 and not ps_single_keys(c['msg']): return [1]
+    if len(obs) == 7: return [1, obs[1], obs[4] if not (obs[1] and obs[1][0] == -7) else [-7]]
+    if c['w'] == 0 and not ps_single_keys(c['msg']): return [1]
+    return obs
